@@ -266,7 +266,7 @@ fn want_value(id: i32, seq: i32, size: usize) -> Got {
 /// Runs one scenario in this process. Ok(None): held; Ok(Some((key, message))): the property is violated.
 pub fn run_scenario(sc: &Scenario, domain: u16) -> Result<Option<(String, String)>, String> {
   if let Some((m, j)) = sc.loss {
-    rustdds::verif::net::set_loss_policy(m, j);
+    rustdds::verif::net::set_loss_pattern(m, j);
   }
   let qos = QosPolicyBuilder::new()
     .reliability(Reliability::Reliable { max_blocking_time: rustdds::Duration::from_secs(5) })
@@ -564,13 +564,13 @@ pub fn run(tier: &str) -> i32 {
   rep.set("creation_orders", json!(orders().len()));
   rep.set("distinct_nontrivial", json!(classes.len()));
   rep.set("exhaustive", json!(true));
-  rep.set("rule", json!("all 35 interleavings of P1<topic<writer<first writes and P2<topic<reader; quick: each with a 4 s pause before the later endpoint creation, durability alternating, plus deletion of reader / writer / the reader's participant, a no_key, a fragmented and a lossy scenario; thorough: x {Volatile, TransientLocal} x pause at no / every single position / before both endpoint creations, and on the orders that start P1,P2: payload sizes on both sides of the 1024-byte fragment limit in every residue mod 4 and 5000 bytes, no_key, deterministic loss (drop datagram k with k mod m = j for six (m, j)), the three deletions. After the steps both sides must report the match within 30 s, a second batch (three values and one instance disposal) is written, and the reader must take exactly the acceptable sequence (TransientLocal: everything; Volatile late joiner: nothing of the first batch) within 30 s and nothing more; deletions must be observed as an unmatch within 30 s"));
+  rep.set("rule", json!("all 35 interleavings of P1<topic<writer<first writes and P2<topic<reader; quick: each with a 4 s pause before the later endpoint creation, durability alternating, plus deletion of reader / writer / the reader's participant, a no_key, a fragmented and a lossy scenario; thorough: x {Volatile, TransientLocal} x pause at no / every single position / before both endpoint creations, and on the orders that start P1,P2: payload sizes on both sides of the 1024-byte fragment limit in every residue mod 4 and 5000 bytes, no_key, deterministic loss (datagram k dropped when splitmix64(k, pattern) mod m = 0, six (m, pattern)), the three deletions. After the steps both sides must report the match within 30 s, a second batch (three values and one instance disposal) is written, and the reader must take exactly the acceptable sequence (TransientLocal: everything; Volatile late joiner: nothing of the first batch) within 30 s and nothing more; deletions must be observed as an unmatch within 30 s"));
   rep.push_sample(json!(scs[0]));
   rep.push_sample(json!(scs[scs.len() / 2]));
   rep.assumptions = vec![
     "Public API only, real threads and sockets: the interleaving of each participant's event-loop and discovery threads within a scenario is the operating system's, not enumerated. A failing scenario is repeated once in a fresh process and reported only if it fails again".into(),
     "Deadlines of 30 s per expectation (typical: under 2 s)".into(),
-    "Loss is deterministic (datagram k dropped when k mod m = j) through the network seam".into(),
+    "Loss is deterministic and aperiodic (datagram k dropped when a fixed hash of (k, pattern) is 0 mod m, rates 1/3 .. 1/7) through the network seam; strictly periodic patterns are not used because they can lock onto the protocol's own period and starve one message kind for ever, which is not loss at a rate".into(),
     "Security-enabled participants are not part of this check (C16/C17/C19 drive the secure pipeline)".into(),
   ];
   rep.finish()
